@@ -242,6 +242,28 @@ def run_scenario(inst, tier, res):
             res.nontrivial.add((inst["name"], tname))
             if tname.startswith(("removed", "zeroed")):
                 res.flags.add("restricted-target")
+        if len(seen) >= 2 and tname != "uniform" and not res.violations:
+            # history: the rewiring object has already rewired another network over the same vertex labels and was
+            # then pointed at this network and this target through its setters (see mcmc.run_rewire)
+            mcmc.REUSED_OBJECT[0] = True
+            try:
+                ru = mcmc.explore_step(state, state, mcmc.motif_shapes(state), names, target, 0)
+            finally:
+                mcmc.REUSED_OBJECT[0] = False
+            res.executions += ru.leaves
+            res.revalidated += ru.rechecked
+            res.count("reused_object_second_calls_explored")
+            for p in ru.problems:
+                pprop, key, msg, choices = p[:4]
+                if pprop == "C12":
+                    res.violation(key, f"scenario {inst['name']} target={tname}, second rewire() of a reused object, "
+                                  f"draws {choices}: {msg}", desc, history=[], choices=choices, target=tname,
+                                  reused=True)
+            if set(ru.successors) != set(graph.get(state, [])):
+                res.violation("C12:reused-object-behaves-differently",
+                              f"scenario {inst['name']} target={tname}: the second rewire() of a reused object has "
+                              f"{len(ru.successors)} accepted-swap successors, a fresh object {len(graph.get(state, []))}",
+                              desc, target=tname, reused=True)
         if res.violations:
             break
     res.samples.append({"scenario": inst["name"], "targets": "uniform, graded, every single deletion / zeroing of an "
